@@ -30,6 +30,11 @@ func failMenu() []sim.TxSpec {
 		with(tr("U0", "U1", "2^255"), func(s *sim.TxSpec) {}, "amount 2^255"),
 		with(tr("U0", "U1", "2^256-1"), func(s *sim.TxSpec) {}, "amount 2^256-1"),
 		with(setdoc("U1", long, "u"), func(s *sim.TxSpec) { s.Tag = "setdoc U1 over-long name" }, "too long"),
+		// the FIRST field is acceptable, a later one is not (a failure after part of the work may already be done)
+		with(setdoc("U1", "mallory", long), func(s *sim.TxSpec) { s.Tag = "setdoc U1 good name, over-long url" }, "url too long"),
+		with(setdoc("W", "walter", long), func(s *sim.TxSpec) { s.Tag = "setdoc W good name, over-long url" }, "url too long (W)"),
+		with(prop("V0", 1, 1, 1, `{"gasPrice":"9"}`, `not json`), func(s *sim.TxSpec) {}, "second option is not JSON"),
+		with(prop("V0", 1, 1, 1, `{"gasPrice":"9"}`, `{"slashRatio":"-1"}`), func(s *sim.TxSpec) {}, "second option negative"),
 		with(stk("U0", "V0", "1R+1"), func(s *sim.TxSpec) {}, "not a multiple"),
 		with(stk("U0", "V0", "0"), func(s *sim.TxSpec) {}, "zero stake"),
 		with(stk("W", "W", "1R"), func(s *sim.TxSpec) {}, "self stake below validator minimum"),
@@ -96,7 +101,7 @@ func (c *c05) Meta() engine.Meta {
 		Category:  "model_checking",
 		LevelName: "number of inserted failing transactions",
 		Technique: "exhaustive insertion of failing transactions at every position of a dense history on the real application, twin-replica differential oracle over the complete committed state",
-		Rule: "failing menu: 49 templates, one per failure reason x type (signature, chain id, nonce +-1, funds short by 1, gas, price, 2^255 / 2^256-1 amounts, over-long setdoc, staking: not a multiple / zero / below minimum / unknown delegatee / amount+fee short / ratio, unstaking: stranger / delegatee / unknown hash / 31-byte hash, withdraw: no record / above claim / non-zero amount, proposal: non-validator / heights / period / options, vote: outsider / bad choice / unknown proposal / outside window, EVM: revert / value into revert / out of gas / below intrinsic / reverting init code with and without value / plain transfers to contracts) " +
+		Rule: "failing menu: 53 templates, one per failure reason x type (signature, chain id, nonce +-1, funds short by 1, gas, price, 2^255 / 2^256-1 amounts, over-long setdoc name / good name with over-long url, proposal whose second option is bad, staking: not a multiple / zero / below minimum / unknown delegatee / amount+fee short / ratio, unstaking: stranger / delegatee / unknown hash / 31-byte hash, withdraw: no record / above claim / non-zero amount, proposal: non-validator / heights / period / options, vote: outsider / bad choice / unknown proposal / outside window, EVM: revert / value into revert / out of gas / below intrinsic / reverting init code with and without value / plain transfers to contracts) " +
 			"inserted before every transaction position and at the end of every block of the dense 8-block history (genesis variants g3, g4L with the live stake limiter, g1; thorough adds all ordered PAIRS of templates at every position). " +
 			"Replica A (with the insertion) vs replica B (without): the inserted DeliverTx has code != 0 (otherwise the case is counted as not applicable), every other DeliverTx / EndBlock response is equal, and after every commit the COMPLETE state (all accounts, delegatees with stakes, unbonding stakes, rewards, proposals with votes, parameters, contract code and storage) is equal, empty account records aside. " +
 			"distinct_nontrivial = cases whose inserted transaction really failed at a position after at least one successful transaction in the same block or before one.",
